@@ -258,4 +258,28 @@ def cond_facts(test, truth: bool):
         return cond_facts(test.operand, not truth)
     if isinstance(test, ast.NamedExpr):
         return [(test, truth), *cond_facts(test.value, truth)]
+    # emptiness written with len():  len(x) != 0 / len(x) > 0 / len(x) >= 1 / 0 < len(x)  is the truthiness of a sized x
+    # (lists, tuples, dicts, sets, strings, bytes: everything len() accepts here is falsy exactly when empty)
+    if isinstance(test, ast.Compare) and len(test.ops) == 1:
+        l, op, r = test.left, test.ops[0], test.comparators[0]
+
+        def is_len(e):
+            return isinstance(e, ast.Call) and isinstance(e.func, ast.Name) and e.func.id == "len" and len(e.args) == 1 and not e.keywords
+
+        def const(e):
+            return e.value if isinstance(e, ast.Constant) and isinstance(e.value, int) and not isinstance(e.value, bool) else None
+
+        nonempty = None
+        if is_len(l) and const(r) is not None:
+            k = const(r)
+            nonempty = {(ast.NotEq, 0): True, (ast.Gt, 0): True, (ast.GtE, 1): True, (ast.Eq, 0): False, (ast.Lt, 1): False, (ast.LtE, 0): False}.get((type(op), k))
+            x = l.args[0]
+        elif is_len(r) and const(l) is not None:
+            k = const(l)
+            nonempty = {(ast.NotEq, 0): True, (ast.Lt, 0): True, (ast.LtE, 1): True, (ast.Eq, 0): False, (ast.Gt, 1): False, (ast.GtE, 0): False}.get((type(op), k))
+            x = r.args[0]
+        if nonempty is not None:
+            return [(test, truth), (x, nonempty if truth else not nonempty)]
+    if isinstance(test, ast.Call) and isinstance(test.func, ast.Name) and test.func.id == "len" and len(test.args) == 1 and not test.keywords:
+        return [(test, truth), (test.args[0], truth)]
     return [(test, truth)]
